@@ -145,6 +145,7 @@ message Val {
   option (pico.message).always_present = true;
   int32 x = 1;
   repeated sint64 y = 2;
+  map<string, int32> m = 3;
 }
 message Ptr { int32 x = 1; OneofAP back = 2; }
 message OneofAP {
